@@ -343,6 +343,23 @@ pub fn notifications(rec: &RunRecord) -> Vec<(String, Value)> {
         .collect()
 }
 
+/// last publishDiagnostics per URI (sorted by URI), other notifications in order
+pub fn final_publications(rec: &RunRecord) -> Vec<(String, Value)> {
+    let mut last: std::collections::BTreeMap<String, Value> = Default::default();
+    let mut other = vec![];
+    for (m, p) in notifications(rec) {
+        if m == "textDocument/publishDiagnostics" {
+            let uri = p.get("uri").and_then(Value::as_str).unwrap_or("").to_string();
+            last.insert(uri, p.get("diagnostics").cloned().unwrap_or(Value::Null));
+        } else {
+            other.push((m, p));
+        }
+    }
+    let mut out: Vec<(String, Value)> = last.into_iter().collect();
+    out.extend(other);
+    out
+}
+
 fn abnormal(rec: &RunRecord) -> bool {
     !rec.task_panics.is_empty()
         || !matches!(rec.end, Some(tokio::sim::ProcessEnd::MainReturned(true)))
@@ -395,25 +412,24 @@ fn differ(sc: &Scenario, a: &RunRecord, b: &RunRecord, j: &mut Judgement) -> Opt
             ),
         ));
     }
-    let n0 = notifications(a);
-    let n1 = notifications(b);
+    // notifications: what the client ends up knowing - the last publication per document - must
+    // be the same; how many intermediate publications there are and how they interleave is a
+    // matter of scheduling (C20), not of framing
+    let n0 = final_publications(a);
+    let n1 = final_publications(b);
     j.comparisons += n0.len() as u64;
     if n0 != n1 {
-        let mut s0: Vec<String> = n0.iter().map(|n| format!("{n:?}")).collect();
-        let mut s1: Vec<String> = n1.iter().map(|n| format!("{n:?}")).collect();
-        s0.sort();
-        s1.sort();
-        if s0 == s1 {
-            // the same notifications in another order: the broker's publications overtook each
-            // other under this schedule, which is C20's ordering clause, not framing
-            j.notes.push("other-property=C20 notifications arrive in a different order under this delivery's schedule".into());
-            return None;
-        }
         let k = n0.iter().zip(n1.iter()).position(|(x, y)| x != y).unwrap_or(n0.len().min(n1.len()));
         return Some((
             "same-notifications",
-            format!("notifications differ at index {k}: {:?} vs {:?}", n0.get(k), n1.get(k)),
+            format!("the last publishDiagnostics per document differ: {:?} vs {:?}", n0.get(k), n1.get(k)),
         ));
+    }
+    {
+        let (m0, m1) = (notifications(a), notifications(b));
+        if m0 != m1 {
+            j.notes.push("other-property=C20 the sequence of notifications differs under this delivery's schedule (the final publication per document is the same)".into());
+        }
     }
     if a.status() != b.status() || abnormal(b) != abnormal(a) {
         return Some((
